@@ -589,6 +589,127 @@ fn word_run(rng: &mut Rng, out: &mut Out) {
     for _ in 0..(pins + reading) { rec.verif_extent_release(); }
 }
 
+// ---------------------------------------------------------------- C18: contention under a watchdog
+
+/// unscheduled writers, readers and concurrent flush() callers on a small (filling) or failing
+/// device; every thread, the final flush and the drop must finish within the watchdog
+fn contend_case(rng: &mut Rng, out: &mut Out, wl: &Arc<WriteLog>, dir: &str, idx: u64) {
+    use std::sync::atomic::Ordering as O;
+    feoxdb::verif::clock::unpin();
+    let small = rng.chance(1, 2);
+    let failing = rng.chance(1, 3);
+    let blocks = if small { rng.range(20, 30) } else { 256 };
+    let path = format!("{}/contend{}.feox", dir, idx);
+    let _ = std::fs::remove_file(&path);
+    let store = match FeoxStore::builder().hash_bits(6).enable_ttl(false).no_memory_limit()
+        .device_path(path.clone()).file_size(blocks * BS).enable_caching(rng.chance(1, 2)).build() {
+        Ok(s) => Arc::new(s),
+        Err(_) => return,
+    };
+    out.count(match (small, failing) { (true, true) => "contend small+failing device", (true, false) => "contend small (filling) device", (false, true) => "contend failing device", _ => "contend healthy device" });
+    wl.seen.store(0, O::SeqCst);
+    wl.fail_after.store(if failing { rng.range(3, 40) } else { 0 }, O::SeqCst);
+    let keys: Vec<Vec<u8>> = (0..3).map(|i| format!("c{}-{}", idx, i).into_bytes()).collect();
+    let mut handles = vec![];
+    let nops = rng.range(50, 300);
+    for t in 0..5u64 {
+        let st = store.clone();
+        let ks = keys.clone();
+        let mut r = Rng::new(rng.next() ^ t);
+        handles.push((t, std::thread::spawn(move || {
+            for i in 0..nops {
+                let k = r.pick(&ks).clone();
+                match t {
+                    0 | 1 => match r.below(5) {
+                        0 => { let _ = st.delete(&k); }
+                        1 => { let _ = st.atomic_increment(&k, 1); }
+                        2 => { let _ = st.compare_and_swap(&k, b"x", b"y"); }
+                        _ => { let _ = st.insert(&k, &pattern(i as u8, *r.pick(&[10usize, 8, 3000, 9000]))); }
+                    },
+                    2 => { if r.chance(1, 2) { let _ = st.get(&k); } else { let _ = st.range_query(b"c", b"d", 10); } }
+                    _ => { if i % 8 == 0 { let _ = st.flush(); } else { std::thread::yield_now(); } }
+                }
+            }
+        })));
+    }
+    let t0 = Instant::now();
+    let mut stuck = vec![];
+    for (t, h) in handles {
+        while !h.is_finished() && t0.elapsed() < WATCHDOG {
+            std::thread::sleep(Duration::from_millis(2));
+        }
+        if h.is_finished() { let _ = h.join(); } else { stuck.push(t); }
+    }
+    if !stuck.is_empty() {
+        out.failures.push(format!("C18\tcontention case {} (blocks={}, failing={}): threads {:?} (0,1 writers; 2 reader; 3,4 flush callers) did not finish within {:?}\t-", idx, blocks, failing, stuck, WATCHDOG));
+        wl.fail_after.store(0, O::SeqCst);
+        std::mem::forget(store);
+        return;
+    }
+    let st = store.clone();
+    if !with_watchdog(move || { let _ = st.flush(); }) {
+        out.failures.push(format!("C18\tcontention case {}: the final flush() did not return (blocks={}, failing={})\t-", idx, blocks, failing));
+        std::mem::forget(store);
+        wl.fail_after.store(0, O::SeqCst);
+        return;
+    }
+    if !with_watchdog(move || drop(store)) {
+        out.failures.push(format!("C18\tcontention case {}: dropping the store did not finish (blocks={}, failing={})\t-", idx, blocks, failing));
+    }
+    wl.fail_after.store(0, O::SeqCst);
+    out.count("contend case");
+    let _ = std::fs::remove_file(&path);
+}
+
+// ---------------------------------------------------------------- C20: the in-flight buffer set
+
+/// random call sequences on the real `InFlightBuffers` (drop-recording payloads): protocol-shaped
+/// (push all, submit in order with failures, completions incl. duplicates and foreign indices,
+/// early drop) and arbitrary ones
+fn inflight_run(rng: &mut Rng, out: &mut Out) {
+    use feoxdb::storage::io::verif_inflight::Set;
+    let cap = rng.range(1, 12) as usize;
+    let mut set = Set::new(cap);
+    out.emit("ifl new".into(), "ok".into());
+    let protocol = rng.chance(2, 3);
+    out.count(if protocol { "inflight protocol-shaped" } else { "inflight arbitrary" });
+    if protocol {
+        for _ in 0..cap { set.push(); out.emit("ifl push".into(), "ok".into()); }
+        let mut queued = vec![];
+        for i in 0..cap {
+            set.mark_in_flight(i);
+            out.emit(format!("ifl in {}", i), "ok".into());
+            if rng.chance(1, 6) {
+                set.mark_unqueued(i);
+                out.emit(format!("ifl unq {}", i), "ok".into());
+                break;
+            }
+            queued.push(i);
+        }
+        // completions: some subset, with duplicates and stray indices; maybe an early drop
+        let rounds = rng.range(0, (queued.len() * 2) as u64 + 1);
+        for _ in 0..rounds {
+            let i = if rng.chance(1, 5) { rng.below(cap as u64 + 2) as usize } else if queued.is_empty() { 0 } else { *rng.pick(&queued) };
+            if i >= 128 { continue; }
+            let r = set.mark_complete(i);
+            out.emit(format!("ifl done {}", i), format!("ok {}", r));
+        }
+    } else {
+        let mut n = 0usize;
+        for _ in 0..rng.range(1, 30) {
+            match rng.below(4) {
+                0 if n < cap => { set.push(); n += 1; out.emit("ifl push".into(), "ok".into()); }
+                1 => { let i = rng.below(cap as u64 + 3) as usize; set.mark_in_flight(i); out.emit(format!("ifl in {}", i), "ok".into()); }
+                2 => { let i = rng.below(cap as u64 + 3) as usize; set.mark_unqueued(i); out.emit(format!("ifl unq {}", i), "ok".into()); }
+                _ => { let i = rng.below(cap as u64 + 3) as usize; let r = set.mark_complete(i); out.emit(format!("ifl done {}", i), format!("ok {}", r)); }
+            }
+        }
+    }
+    let rel = set.finish();
+    let bits: String = rel.iter().map(|b| if *b { '1' } else { '0' }).collect();
+    out.emit("ifl drop".into(), format!("ok {}", bits).trim_end().to_string());
+}
+
 // ---------------------------------------------------------------- C08: readers racing with retirement
 
 struct WriteLog {
@@ -596,6 +717,13 @@ struct WriteLog {
     writes: Mutex<Vec<(u64, usize)>>,
     /// retirements postponed because readers were inside the extent: sectors
     blocked: Mutex<Vec<u64>>,
+    /// gate: park the thread whose write first touches this extent (sector, blocks);
+    /// state 0 = nobody waiting, 1 = a writer is parked at the gate, 2 = released
+    gate: Mutex<(Option<(u64, u64)>, u8)>,
+    gate_cv: Condvar,
+    /// fail every device write / fsync once this many writes have been seen (0 = never)
+    fail_after: std::sync::atomic::AtomicU64,
+    seen: std::sync::atomic::AtomicU64,
 }
 
 impl feoxdb::verif::proto::Observer for WriteLog {
@@ -609,8 +737,30 @@ impl feoxdb::verif::proto::Observer for WriteLog {
 impl feoxdb::verif::io::Observer for WriteLog {
     fn event(&self, kind: feoxdb::verif::io::Kind, _fd: i32, sector: u64, len: usize, data: &[u8]) -> feoxdb::verif::io::Decision {
         use feoxdb::verif::io::Kind as K;
+        let fa = self.fail_after.load(std::sync::atomic::Ordering::SeqCst);
+        if fa > 0 && matches!(kind, K::Write | K::Fsync) {
+            let n = self.seen.fetch_add(1, std::sync::atomic::Ordering::SeqCst);
+            if n >= fa {
+                return feoxdb::verif::io::Decision::FailBefore;
+            }
+        }
         if self.enabled.load(std::sync::atomic::Ordering::SeqCst) && matches!(kind, K::Write | K::RingWrite) {
-            self.writes.lock().unwrap().push((sector, len.max(data.len())));
+            let l = len.max(data.len());
+            self.writes.lock().unwrap().push((sector, l));
+            let mut g = self.gate.lock().unwrap();
+            if let Some((s1, n1)) = g.0 {
+                if sector < s1 + n1 && s1 < sector + (l as u64).div_ceil(BS).max(1) {
+                    g.0 = None;
+                    g.1 = 1;
+                    self.gate_cv.notify_all();
+                    let t0 = Instant::now();
+                    while g.1 != 2 && t0.elapsed() < WATCHDOG {
+                        let (ng, _) = self.gate_cv.wait_timeout(g, Duration::from_millis(100)).unwrap();
+                        g = ng;
+                    }
+                    g.1 = 0;
+                }
+            }
         }
         feoxdb::verif::io::Decision::Proceed
     }
@@ -658,10 +808,11 @@ fn race_case(rng: &mut Rng, out: &mut Out, ctl: &Arc<Ctl>, wl: &Arc<WriteLog>, d
         g.push(Slot { phase: Phase::Idle, permit: false, cmd: None, exit: false });
     }
     let h = { let c = ctl.clone(); let st = store.clone(); std::thread::spawn(move || worker(0, c, st)) };
-    let pinned_mode = rng.chance(1, 2);
+    let mode = rng.below(3); // 0: reader parked before the pin, 1: holding the pin, 2: before the pin + retirer parked at its marker write
+    let pinned_mode = mode == 1;
     let delete = rng.chance(1, 3);
     let reader = match rng.below(3) { 0 => Op::Get { bytes: false }, 1 => Op::Get { bytes: true }, _ => Op::Cas { exp: Val { kind: Kind::Raw, n: 0 }, new: Val { kind: Kind::Raw, n: 1 }, ts: None } };
-    out.count(if pinned_mode { "race reader parked holding the pin" } else { "race reader parked before the pin" });
+    out.count(match mode { 1 => "race reader parked holding the pin", 0 => "race reader parked before the pin", _ => "race reader enters between the retirer's check and its marker write" });
     out.count(&format!("race reader {}", reader.line().split(' ').next().unwrap()));
     let mut bad: Option<String> = None;
     let mut ph = ctl.call(0, reader.clone(), key.clone());
@@ -669,6 +820,9 @@ fn race_case(rng: &mut Rng, out: &mut Out, ctl: &Arc<Ctl>, wl: &Arc<WriteLog>, d
         if let Some(Phase::AtPoint("read_start")) = ph { ph = ctl.resume(0); }
     }
     let parked = matches!(ph, Some(Phase::AtPoint(_)));
+    if mode == 2 && parked {
+        *wl.gate.lock().unwrap() = (Some((s1, n1)), 0);
+    }
     wl.writes.lock().unwrap().clear();
     wl.blocked.lock().unwrap().clear();
     wl.enabled.store(true, O::SeqCst);
@@ -689,6 +843,41 @@ fn race_case(rng: &mut Rng, out: &mut Out, ctl: &Arc<Ctl>, wl: &Arc<WriteLog>, d
         if !hit.is_empty() {
             bad = Some(format!("device writes {:?} landed in the extent {}+{} of a generation while a reader held its pin", hit, s1, n1));
         }
+    } else if parked && mode == 2 {
+        // the retirer is stopped at its first write into the old extent; the reader is let in
+        let st = store.clone();
+        let fl = std::thread::spawn(move || { let _ = st.flush(); });
+        let t0 = Instant::now();
+        let mut at_gate = false;
+        while t0.elapsed() < Duration::from_secs(3) {
+            if wl.gate.lock().unwrap().1 == 1 { at_gate = true; break; }
+            std::thread::sleep(Duration::from_millis(1));
+        }
+        if at_gate {
+            out.count("race retirer parked at its marker write");
+            ph = ctl.resume(0);
+            if let Some(Phase::AtPoint("read_pinned")) = ph {
+                // no second `read_start` in between: this pin is on the OLD extent, and the retirer's
+                // write into it is already under way
+                bad = Some(format!("a reader was granted the pin of extent {}+{} after the retirer had found it free of readers and started writing its markers: the blocks are overwritten while the reader is inside", s1, n1));
+            }
+        }
+        {
+            let mut g = wl.gate.lock().unwrap();
+            g.0 = None;
+            g.1 = 2;
+            wl.gate_cv.notify_all();
+        }
+        let t1 = Instant::now();
+        while !fl.is_finished() && t1.elapsed() < WATCHDOG {
+            // a reader that holds a pin keeps flush() waiting: let it finish
+            if let Some(Phase::AtPoint(_)) = ph { ph = ctl.resume(0); }
+            std::thread::sleep(Duration::from_millis(1));
+        }
+        if fl.is_finished() { let _ = fl.join(); } else {
+            out.failures.push("C18\tflush() did not return after the retirer was released\t-".into());
+        }
+        wl.gate.lock().unwrap().1 = 0;
     } else if parked {
         // nobody holds a pin: flush completes, the old extent is retired and its blocks reused
         let st = store.clone();
@@ -778,11 +967,18 @@ fn main() {
     let mut rng = Rng::new(args.seed);
     let get = |k: &str, d: u64| -> u64 { args.extra.iter().find_map(|e| e.strip_prefix(&format!("{}=", k)).map(|v| v.parse().unwrap())).unwrap_or(d) };
     let cases = get("cases", 200);
-    let wl = Arc::new(WriteLog { enabled: std::sync::atomic::AtomicBool::new(false), writes: Mutex::new(vec![]), blocked: Mutex::new(vec![]) });
+    let wl = Arc::new(WriteLog { enabled: std::sync::atomic::AtomicBool::new(false), writes: Mutex::new(vec![]), blocked: Mutex::new(vec![]), gate: Mutex::new((None, 0)), gate_cv: Condvar::new(),
+        fail_after: std::sync::atomic::AtomicU64::new(0), seen: std::sync::atomic::AtomicU64::new(0) });
     feoxdb::verif::io::set_observer(Some(wl.clone()));
     feoxdb::verif::proto::set_observer(Some(wl.clone()));
     for _ in 0..get("words", 0) {
         word_run(&mut rng, &mut out);
+    }
+    for i in 0..get("contend", 0) {
+        contend_case(&mut rng, &mut out, &wl, &args.out, i);
+    }
+    for _ in 0..get("inflight", 0) {
+        inflight_run(&mut rng, &mut out);
     }
     for i in 0..get("races", 0) {
         race_case(&mut rng, &mut out, &ctl, &wl, &args.out, i);
